@@ -5,6 +5,7 @@ Property theorems about `Model/CacheMachine.lean` (the process-wide function cac
 mechanism flags regenerated from the source (`Generated/CacheMech.lean`).
 -/
 import Midgard.Proofs.CacheMachine
+import Midgard.Proofs.ObjCache
 import Midgard.Generated.CacheMech
 
 namespace Midgard.Props.C08
@@ -127,6 +128,88 @@ example : (run ⟨true, true, true, false, false, 2⟩ {}
 
 end Midgard.Props.C08
 
+/-! ## Second machine: the per-object caches of position arrays
+
+`Model/ObjCache.lean`: memory blocks, row views sharing memory, attached `other`, cached
+conversions / derived quantities, `_dependent_objs`, `__setitem__` / `__setattr__` invalidation.
+-/
+
+namespace Midgard.Props.C08.Obj
+open Midgard.ObjCache
+
+/-- the mechanism the repaired `_position.py` has: transitive clearing, row views linked to their parent -/
+def good : Flags := ⟨true, true⟩
+
+/-- **One step**: with the repaired mechanism every operation keeps the invariant (cached values
+are snapshots of the current contents; objects sharing memory, and objects attached as `other`,
+are connected through the dependency lists) and returns what recomputation from the current
+contents returns. -/
+theorem step_current {s : State} (hs : Inv s) (op : Op) :
+    (step good s op).2 = (refStep s op).2 ∧ Inv (step good s op).1 := by
+  cases op with
+  | create vals => exact create_inv hs vals
+  | view p rows => exact view_inv hs p rows
+  | take p rows => exact take_inv hs p rows
+  | setOther p q => exact setOther_inv hs p q
+  | setItem p k v => exact setItem_inv hs p k v
+  | readConv p => exact readConv_current hs p
+  | readDer p => exact readDer_current hs p
+
+/-- what recomputation from the current contents gives at every step of a history -/
+def recomputed (s : State) : List Op → List Out
+  | [] => []
+  | op :: ops => (refStep s op).2 :: recomputed (step good s op).1 ops
+
+/-- **Caching is invisible for every history**: after any sequence of creating arrays, taking row
+views and copies, attaching / replacing `other`, item assignment (to an array, to a view of it, to
+its `other` or a view of that) and reads, every read returns exactly the value recomputed from
+the current contents. -/
+theorem caching_invisible {s : State} (hs : Inv s) (ops : List Op) : (run good s ops).2 = recomputed s ops := by
+  induction ops generalizing s with
+  | nil => rfl
+  | cons op ops ih =>
+    obtain ⟨h1, h2⟩ := step_current hs op
+    simp only [run, recomputed]
+    rw [h1, ih h2]
+
+theorem caching_invisible_from_start (ops : List Op) : (run good {} ops).2 = recomputed {} ops :=
+  caching_invisible inv_empty ops
+
+/-- the invariant holds in every reachable state -/
+theorem inv_reachable (ops : List Op) : Inv (run good {} ops).1 := by
+  have : ∀ (s : State), Inv s → Inv (run good s ops).1 := by
+    induction ops with
+    | nil => intro s hs; exact hs
+    | cons op ops ih => intro s hs; simp only [run]; exact ih _ (step_current hs op).2
+  exact this {} inv_empty
+
+/-- the source has that mechanism (regenerated on every run) -/
+theorem mech_objcache : Generated.CacheMech.objTransitive = true ∧ Generated.CacheMech.objViewsLinked = true ∧
+    Generated.CacheMech.objRefPosRegistered = true := by decide
+
+/-- without transitive clearing (the code before 37f48d7): writing through a view of a view leaves
+the grandparent's cached conversion stale -/
+theorem witness_not_transitive :
+    (run ⟨false, true⟩ {} [.create [1, 2, 3, 4], .readConv 0, .view 0 [0, 1], .view 1 [0], .setItem 2 0 77, .readConv 0]).2
+      ≠ recomputed {} [.create [1, 2, 3, 4], .readConv 0, .view 0 [0, 1], .view 1 [0], .setItem 2 0 77, .readConv 0] := by
+  decide +kernel
+
+/-- without linking row views to their parent: `s = p[0:2]; s[0] = x` leaves `p.llh` stale -/
+theorem witness_views_unlinked :
+    (run ⟨true, false⟩ {} [.create [1, 2, 3, 4], .readConv 0, .view 0 [0, 1], .setItem 1 0 77, .readConv 0]).2
+      ≠ recomputed {} [.create [1, 2, 3, 4], .readConv 0, .view 0 [0, 1], .setItem 1 0 77, .readConv 0] := by
+  decide +kernel
+
+/-- non-vacuity: a history with `other`, views of both, writes through views and re-attachment -/
+example : (run good {} [.create [1, 2, 3, 4], .create [9, 9, 9, 9], .setOther 0 (some 1), .readConv 0, .readDer 0,
+      .view 0 [0, 1], .readDer 3, .setItem 2 0 5, .readDer 3, .readDer 0, .setItem 3 1 8, .readConv 0, .setOther 0 none,
+      .readDer 0]).2
+    = [.done, .done, .done, .conv [1, 2, 3, 4], .der [1, 2, 3, 4] [9, 9, 9, 9], .done, .der [1, 2] [9, 9], .done,
+       .der [1, 2] [5, 9], .der [1, 2, 3, 4] [5, 9, 9, 9], .done, .conv [1, 8, 3, 4], .done, .bad] := by decide +kernel
+
+end Midgard.Props.C08.Obj
+
+
 #print axioms Midgard.Props.C08.refines_from
 #print axioms Midgard.Props.C08.refines
 #print axioms Midgard.Props.C08.ref_call_current
@@ -142,3 +225,10 @@ end Midgard.Props.C08
 #print axioms Midgard.Props.C08.witness_key_without_tag
 #print axioms Midgard.Props.C08.witness_result_aliased
 #print axioms Midgard.Props.C08.witness_argument_frozen
+#print axioms Midgard.Props.C08.Obj.step_current
+#print axioms Midgard.Props.C08.Obj.caching_invisible
+#print axioms Midgard.Props.C08.Obj.caching_invisible_from_start
+#print axioms Midgard.Props.C08.Obj.inv_reachable
+#print axioms Midgard.Props.C08.Obj.mech_objcache
+#print axioms Midgard.Props.C08.Obj.witness_not_transitive
+#print axioms Midgard.Props.C08.Obj.witness_views_unlinked
